@@ -17,7 +17,7 @@ cd /verif
 echo "== checks on the changed tree"
 RES=""
 for P in C01 C02 C03 C04 C05 C06 C07 C08 C09 C10 C11 C12 C13 C14 C15 C16 C17; do
-  OUT=$(./check $P --repo $WT 2>&1); RC=$?
+  OUT=$(VERIF_GEN=/tmp/gen_seed_$ID ./check $P --repo $WT 2>&1); RC=$?
   if [ $RC -eq 1 ]; then RES="$RES $P:VIOLATION"; echo "$OUT" | grep -E "^  obligation|^VIOLATION" | head -6; fi
   if [ $RC -eq 2 ]; then RES="$RES $P:UNDECIDED"; echo "$OUT" | head -2; fi
 done
